@@ -183,7 +183,9 @@ Proof.
     destruct (meta_call_inv _ _ _ _ _ (WF.Inv_stack _ (WF.reachable_inv _ Hreach)) Hme Hcall)
       as (j & d & Ej & _ & Hfmt & Hdump & Hncs). injection Ej as <-.
     destruct (WC.C02_length_exact _ _ _ _ _ _ _ _ _ _ Hncs) as (body & lo & h & Hprep & _).
-    cbn [expected_view call_prepared call_opts call_payload WF.target]. rewrite Hdump, Hprep. cbn [fst snd].
+    assert (Hmc : meta_content s enc d = CText (ascii_text d)).
+    { unfold meta_content. cbn [meta_enc_b] in Hme. rewrite Hme. reflexivity. }
+    cbn [expected_view call_prepared call_opts call_payload WF.target]. rewrite Hdump, Hmc, Hprep. cbn [fst snd].
     assert (Hbl : body_length s (WriteMeta (WDict (JObj kv)) enc fmt) = content_length body).
     { unfold body_length, call_body. rewrite Hdump. cbn [bind]. rewrite Hprep. reflexivity. }
     rewrite Hbl, Nat.add_sub, Hlvl. apply triple_eq; [reflexivity| |reflexivity].
@@ -280,7 +282,7 @@ Proof.
   intros orc t b cs s0 Hi Hc He Hg Ha -> Hme Hgs Ho Hsz s0' cs' Hi' Hc'.
   rewrite Hi in Hi'. injection Hi' as <-. rewrite Hc in Hc'. injection Hc' as <-.
   exists (main_record (tree_encoding t) (tree_version t) :: expected_records s0 1 cs). split.
-  - apply C01_round_trip; try assumption. unfold default_chunk. lia.
+  - apply C01_round_trip; try assumption; [apply metas_oracle_of_encoded; exact Hme|]. unfold default_chunk. lia.
   - cbn [map]. rewrite (main_view_of_record _ _ _ Hi He). f_equal.
     apply views_of_records; [eapply lvl_ok_init; exact Hi | exact Hg | exact Ha | exact Hme].
 Qed.
